@@ -16,7 +16,7 @@ RULE = (
 )
 ASSUMPTIONS = ["weighted mean computed with math.fsum over the same getters of the components"]
 REQUIRED = {
-    "quick": {"index_values_checked": 12000, "fundamental_index_checked": 2000, "class/unequal_shares_run": 40,
+    "quick": {"index_values_checked": 12000, "fundamental_index_checked": 2000, "class/unequal_shares_run": 28,
               "class/component_shock_run": 10, "class/component_prices_moved_run": 30,
               "class/duplicate_component_refused": 4, "class/component_without_shares_refused": 4,
               "class/arbitrageur_full_access_run": 4, "class/arbitrageur_partial_access_run": 4,
